@@ -20,6 +20,15 @@ reg("C09", ["E1"], E1T,
     "Bounded model checking: every path of Commitment::{new,verify_opening}, Message::commit, the key->parameter conversions and PedersenParameters::new "
     "is executed symbolically for N in {1,2,3,5}(+8,13) in G1 and G2; exact-map, accept<=>equality, uniqueness and additivity are SMT validity queries over all scalars.",
     TB, "DESIGN.md section 4, C09")
+reg("C11", ["E1"], E1T,
+    "Bounded model checking: the three proof verifiers run on fully symbolic proofs, parameters and challenge (all 2^K paths, N in {1,2,3,5}(+8,13)); "
+    "accept <=> Schnorr / pairing relation is an SMT validity query per path; every single-atom, challenge and parameter perturbation is refuted under stated non-degeneracy; "
+    "the prover-built all-identity signature proof is shown rejected on every feasible path.",
+    TB, "DESIGN.md section 4, C11")
+reg("C12", ["E1"], E1T,
+    "Bounded model checking: the challenge transcripts computed by the real ChallengeInput impls and inside initialize / allow_payment are recorded by the ideal-hash stand-in; "
+    "for every wire atom of every proof type, key, parameter set and statement component the query 'equal digest and different atom' must be unsat (response scalars: documented sat twin); builder and proof transcripts must be identical.",
+    TB, "DESIGN.md section 4, C12")
 
 
 def evidence(pid, tier, seed, spec, parts, findings, violations, known_hits, inconclusive, wall):
